@@ -165,6 +165,8 @@ struct Cfg {
     seed: u64,
     /// whether peers also announce the empty-square hash for non-empty heights
     empty_hash_announced: bool,
+    /// whether peers also announce the data hash of another height
+    other_height_hash_announced: bool,
 }
 
 #[derive(Clone)]
@@ -180,7 +182,7 @@ fn hash_labels_for(cfg: &Cfg, h: u64) -> Vec<u8> {
     let mut v = vec![label_index(right), label_index("X")];
     // the data hash of another height (first later event height, cyclically, whose hash is
     // neither this height's nor the empty one)
-    let n = cfg.event_heights.len();
+    let n = if cfg.other_height_hash_announced { cfg.event_heights.len() } else { 0 };
     let pos = cfg.event_heights.iter().position(|x| *x == h).unwrap_or(0);
     for k in 1..n {
         let o = label_of(cfg.event_heights[(pos + k) % n]);
@@ -529,7 +531,19 @@ fn run(cfg: &Cfg, hist: &[Op]) -> Outcome {
                 fnv64(
                     format!(
                         "{snap}|{:?}|{:?}|{:?}|{:?}|{}|{:?}",
-                        m.stored, m.votes, m.live, m.owed, m.newest_validated, {
+                        m.stored,
+                        {
+                            let mut v = m.votes.clone();
+                            for l in v.values_mut() {
+                                l.sort();
+                            }
+                            v.retain(|_, l| !l.is_empty());
+                            v
+                        },
+                        m.live,
+                        m.owed,
+                        m.newest_validated,
+                        {
                             let mut t = m.tasks.clone();
                             t.sort();
                             t
@@ -573,6 +587,7 @@ fn main() {
         peers: env_list("C40_PEERS").and_then(|v| v.first().copied()).unwrap_or(ctx.tier.pick(2, 3)) as u8,
         seed: ctx.seed,
         empty_hash_announced: std::env::var("C40_EMPTY").map(|v| v == "1").unwrap_or(!ctx.quick()),
+        other_height_hash_announced: std::env::var("C40_OTHER").map(|v| v == "1").unwrap_or(!ctx.quick()),
     };
     if ctx.replay.is_some() {
         cfg.peers = 3;
@@ -598,7 +613,7 @@ fn main() {
         let bcfg = BfsConfig {
             max_depth: depth,
             max_states: ctx.tier.pick(1_500_000, 12_000_000),
-            wall_cap: Duration::from_secs(ctx.tier.pick(50, 800)),
+            wall_cap: Duration::from_secs(std::env::var("C40_WALL").ok().and_then(|s| s.parse().ok()).unwrap_or(ctx.tier.pick(50, 800))),
             dedup: true,
         };
         let nontrivial: Mutex<HashSet<u64>> = Mutex::new(HashSet::new());
